@@ -36,6 +36,23 @@ META = {
 }
 
 
+KNOWN_F32 = "K-C06-f32-small-magnitude-spelling"
+
+
+def f32_small(v):
+    """Known class: a 32-bit float with 1e-6 <= |x| < 1e-5 somewhere in the document (ryu spells such an f32 positionally,
+    0.00000d..., and the same number as an f64 in exponent form, d.d..e-6)."""
+    if isinstance(v, gen.F32):
+        return 1e-6 <= abs(v.value) < 1e-5
+    if isinstance(v, dict):
+        return any(f32_small(x) for x in v.values())
+    if isinstance(v, gen.Map):
+        return any(f32_small(k) or f32_small(x) for k, x in v.pairs)
+    if isinstance(v, (list, tuple)):
+        return any(f32_small(x) for x in v)
+    return False
+
+
 def run_oracle(outcome, tier, seed):
     rng = random.Random(seed + 606)
     docs = fidelity.documents(rng, 500 if tier == "thorough" else 110, f32=True)
@@ -68,13 +85,15 @@ def run_oracle(outcome, tier, seed):
             reqs2.append({"id": base + 1, "to": a, "calls": [{"input": out, "from": b, "mode": mode, "sched": sched}]})
             plans2.append((a, b, v, t, ab, aa, mode, sched, base))
     r2 = common.harness_batch(reqs2, timeout=1800)
-    idem, trips = 0, 0
+    idem, trips, known_hits = 0, 0, 0
     for a, b, v, t, ab, aa, mode, sched, base in plans2:
         bb, ba = shared.session_result(r2[base]), shared.session_result(r2[base + 1])
         info = {"A": a, "B": b, "mode_of_second_hop": mode, "sched": sched, "input_hex": shared.hx(t)[:2000], "value": repr(v)[:400],
                 "A_to_B_hex": ab[2][:1500]}
         idem += 1
-        if bb[0] != "ok" or bb[2] != ab[2]:
+        if (bb[0] != "ok" or bb[2] != ab[2]) and b in ("json", "yaml") and f32_small(v):
+            known_hits += 1
+        elif bb[0] != "ok" or bb[2] != ab[2]:
             outcome.oracle_failures.append(dict(info, what="xt's %s output is not a fixed point of xt (%s -> %s does not reproduce it byte for byte)" % (b, b, b),
                                                 B_to_B=[bb[0], bb[1][:200], bb[2][:1500]]))
         # round trip, for documents inside what both formats represent
@@ -99,6 +118,20 @@ def run_oracle(outcome, tier, seed):
     outcome.distinct_nontrivial += idem + trips
     outcome.extra["roundtrip_oracle"] = {"documents": len(docs), "idempotence_checks": idem, "round_trip_checks": trips}
     outcome.add_sample({"A": docs[1][0], "value": repr(docs[1][1])[:300]})
+    # the listed finding's witness
+    for k in common.load_known("C06"):
+        w = k["witness"]
+        data = bytes.fromhex(w["input_hex"])
+        r1 = shared.session_result(common.harness_batch([{"id": 0, "to": w["to"], "calls": [{"input": shared.hx(data), "from": w["from"], "mode": "slice"}]}])[0])
+        r2 = shared.session_result(common.harness_batch([{"id": 0, "to": w["to"], "calls": [{"input": r1[2], "from": w["to"], "mode": "slice"}]}])[0])
+        if r1[0] == "ok" and (r2[0] != "ok" or r2[2] != r1[2]):
+            outcome.known_hits.append((k["id"], "%s -> %s of %s gives %r, and %s -> %s of that gives %r" % (
+                w["from"], w["to"], w["input_hex"], bytes.fromhex(r1[2]).decode(), w["to"], w["to"], bytes.fromhex(r2[2]).decode() if r2[2] not in ("-", "") else r2[1])))
+        else:
+            outcome.notes.append("listed finding %s no longer reproduces on its witness" % k["id"])
+    if known_hits and KNOWN_F32 not in {k["id"] for k in common.load_known("C06")}:
+        outcome.oracle_failures.append({"what": "unlisted defect class " + KNOWN_F32})
+    outcome.extra["known_class_hits"] = {KNOWN_F32: known_hits}
 
 
 def run(outcome, tier, seed):
